@@ -59,11 +59,12 @@ struct PayOdd   { using Type = Odd;
 struct Probe;
 struct Ctx { Probe* probe = nullptr; };
 
-// scripted generator: hands out the numbers of the current script, then 0
+// scripted generator: hands out the numbers of the script of the call in progress, then 0
+// (stateless, so that a copy of an instance - which shares its source's generator reference - behaves the same)
 struct ScriptedRng {
-	Probe* probe = nullptr;
 	inline Rational next() noexcept;
 };
+inline Probe*& currentProbe() { static Probe* p = nullptr; return p; }
 
 // assertion / HFSM2_BREAK hits (routed here by the HFSM2_VERIF hook)
 struct BreakLog { std::vector<std::pair<std::string, int>> hits; };
